@@ -66,7 +66,9 @@ def scale(env, v):
     return v
 
 
-def propagate(env, which, v, elems, dt):
+def propagate(env, which, v, elems, dt, first=None):
+    """first: an earlier propagate() call on the same propagator instance (its result is discarded): the propagator must
+    answer the second date from its stored orbit, unaffected by the first call"""
     mod = env.mod("beyond.propagators." + ("kepler" if which == "kepler" else "j2"))
     cls = mod.Kepler if which == "kepler" else mod.J2
     if env.symbolic:
@@ -80,11 +82,15 @@ def propagate(env, which, v, elems, dt):
             mod.Earth = types.SimpleNamespace(mu=v["mu"], r=re, J2=j2c)
         p = cls.__new__(cls)
         p._orbit = sym_orbit(env, v, v["mu"], 0, elems)
+        if first is not None:
+            p.propagate(SymDate(first))
         out = p.propagate(SymDate(dt))
         return list(out), out.date.t
     p = cls()
     orb = conc_orbit(v, elems)
     p.orbit = orb
+    if first is not None:
+        p.propagate(orb.date + _td(seconds=float(first)))
     out = p.propagate(orb.date + _td(seconds=float(dt))).copy(form="keplerian_mean")
     return [float(x) for x in out], dt
 
@@ -93,13 +99,13 @@ def n_of(env, mu, a):
     return env.sqrt(mu / abs(a) ** 3)
 
 
-def kepler_case(family):
+def kepler_case(family, repeat=False):
     def pre(v):
         return [v["a"] > 0, v["e"] < 1] if family == "ell" else [v["a"] < 0, v["e"] > 1]
 
     def run(env, v):
         v = scale(env, v)
-        out, t = propagate(env, "kepler", v, None, v["dt"])
+        out, t = propagate(env, "kepler", v, None, v["dt"], first=(v["dt1"] if repeat else None))
         return {"five": out[:5] if env.symbolic else [out[0], out[1]], "angles": [Ang(x) for x in out[2:5]],
                 "M": Mod2pi(out[5]) if not env.symbolic else out[5], "date": t}
 
@@ -109,8 +115,10 @@ def kepler_case(family):
         five = [v[k] for k in ELEMS[:5]]
         return {"five": five if env.symbolic else five[:2], "angles": [Ang(v[k]) for k in ("i", "Om", "om")],
                 "M": v["M"] + n_of(env, mu, v["a"]) * v["dt"], "date": v["dt"]}
-    return Case(f"kepler/{family}", INS, run, ref, pre=pre, tol=1e-6, abs_tol=1e-6,
-                desc=f"{family}: Kepler.propagate leaves a, e, i, Omega, omega unchanged and advances M by sqrt(mu/|a|^3) dt")
+    return Case(f"kepler/{family}" + ("/repeat" if repeat else ""), INS + ([("dt1", "real")] if repeat else []), run, ref, pre=pre,
+                tol=1e-6, abs_tol=1e-6,
+                desc=f"{family}: Kepler.propagate leaves a, e, i, Omega, omega unchanged and advances M by sqrt(mu/|a|^3) dt"
+                     + (" -- also when the same propagator instance has answered another date before" if repeat else ""))
 
 
 def kepler_compose_case():
@@ -137,13 +145,13 @@ def kepler_compose_case():
                 desc="propagate(t1) then propagate(t2) = propagate(t1+t2); propagate(-t) is the inverse; one period adds exactly 2 pi to M")
 
 
-def j2_case():
+def j2_case(repeat=False):
     def pre(v):
         return [v["a"] > 0, v["e"] < 1]
 
     def run(env, v):
         v = scale(env, v)
-        out, t = propagate(env, "j2", v, None, v["dt"])
+        out, t = propagate(env, "j2", v, None, v["dt"], first=(v["dt1"] if repeat else None))
         return {"aei": out[:3] if env.symbolic else out[:2], "Om": Mod2pi(out[3]), "om": Mod2pi(out[4]), "M": Mod2pi(out[5]),
                 "date": t}
 
@@ -166,7 +174,8 @@ def j2_case():
         dM = n + env.frac(3, 4) * k * env.sqrt(1 - e * e) * (3 * c * c - 1)
         return {"aei": [a, e, i] if env.symbolic else [a, e], "Om": v["Om"] + dOm * dt, "om": v["om"] + dom * dt,
                 "M": v["M"] + dM * dt, "date": dt}
-    return Case("j2/rates", INS, run, ref, pre=pre, tol=1e-6, abs_tol=1e-6, timeout=90,
+    return Case("j2/rates" + ("/repeat" if repeat else ""), INS + ([("dt1", "real")] if repeat else []), run, ref, pre=pre, tol=1e-6,
+                abs_tol=1e-6, timeout=90,
                 desc="J2.propagate keeps a, e, i and drifts Omega, omega, M linearly at the first-order secular rates "
                      "(-3/2 n J2 (Re/p)^2 cos i, 3/4 n J2 (Re/p)^2 (5 cos^2 i - 1), n + 3/4 n J2 (Re/p)^2 sqrt(1-e^2)(3 cos^2 i - 1))")
 
@@ -194,7 +203,7 @@ def j2_special_case(kind):
 
 def all_cases(tier):
     return [kepler_case("ell"), kepler_case("hyp"), kepler_compose_case(), j2_case(), j2_special_case("polar"),
-            j2_special_case("critical")]
+            j2_special_case("critical"), kepler_case("ell", True), kepler_case("hyp", True), j2_case(True)]
 
 
 def groups(tier):
